@@ -42,7 +42,10 @@ CLAIMS = {
             "return split -> entry parser -> interpolate_defaults -> _set_name_and_type is the identity on the same "
             "default-free domain for these two styles as well (any number of parameters; the grouping loop is shown to be a "
             "fold, scanLoop_fold). The three whole-docstring theorems are partial: no defaults (the default sentence is "
-            "covered by the C17 theorems, floats included), no return entry, and the lexical side conditions listed in "
+            "covered by the C17 theorems, floats included), no return entry - except numpydoc, where "
+            "NumpyRT.C01_numpydoc_return_partial carries a typed, described return entry through the Returns/------- "
+            "section (returnSplit_found: the return split finds the pair right after the argument units, for any number of "
+            "arguments) - and the lexical side conditions listed in "
             "DESIGN A.3. All models are run against the code on every generated IR and on mutated text, entry by entry and "
             "as whole docstrings. The recorded finding classes delimit the domain on which the property holds today; a "
             "failure is excused only when each of its differences is about a field of an entry a finding explains."
@@ -207,7 +210,12 @@ CLAIMS = {
             "chain_ok_pres transfers this to the executable chain with its per-step domain checks; chain_names. The model "
             "(Kinds.chain) is tied to the code by running real chains of 2-3 kinds — all 42 ordered pairs and 210 triples in "
             "the thorough tier — through the emitted text at every hop and comparing with the model whenever every "
-            "intermediate description stays inside the regular domain of the next kind. The predicate mirrors PresIR on the "
+            "intermediate description stays inside the regular domain of the next kind. A second, statement-level model "
+            "(StmtChain: every hop is the statement-by-statement model of the real emitter and parser of that kind - three "
+            "docstring styles with style detection, class, function/method, argparse) is compared EXACTLY with the code on "
+            "the same chains (stmt_chain layer); chain_append (a chain is the composition of its parts) and "
+            "hop_argparse_refines (the argparse hop of the statement-level chain refines the interface-level normal form) "
+            "are kernel-checked. The predicate mirrors PresIR on the "
             "real code for every case. Where conversions compose badly today (function writes None, argparse then reads "
             "Optional[...]; '' and 0 defaults leave a dangling 'Defaults to') the case is a recorded finding."
         ),
